@@ -383,6 +383,35 @@ func (c *checker) oracleRoundTrip(p *packet, ref *refFrames, frames [][]byte, ad
 	if len(m.bad) == 0 {
 		c.st.DecodedOK++
 	}
+	// every handler of an event decodes the packet for itself (the sockets call the decode function once per
+	// handler): a second decode of the same packet reproduces it just as well
+	if len(m.bad) == 0 && len(nodes) > 0 {
+		vals2, err2, pan2 := safeDecode(gotDec, types...)
+		switch {
+		case pan2 != nil:
+			add("second decode of the same packet panics: "+stable(fmt.Sprint(pan2)), "decode (second call) panicked: %v; frames %s", pan2, showFrames(frames))
+		case err2 != nil:
+			add("second decode of the same packet returns an error ("+typeName(ref.wire)+")", "decode (second call) failed: %v; frames %s", err2, showFrames(frames))
+		case len(vals2) != len(nodes):
+			add("second decode of the same packet returns a wrong number of values", "got %d want %d; frames %s", len(vals2), len(nodes), showFrames(frames))
+		default:
+			m2 := &matcher{c: c}
+			for i, n := range nodes {
+				got := vals2[i]
+				if !got.IsValid() || got.Kind() != reflect.Ptr || got.IsNil() {
+					m2.fail("value", fmt.Sprintf("argument %d: decode returned %v", i, got))
+					continue
+				}
+				if types[i].Kind() != reflect.Ptr {
+					got = got.Elem()
+				}
+				m2.match(n, got, fmt.Sprintf("arg %d", i))
+			}
+			for _, first := range m2.bad {
+				add("second decode of the same packet differs from the first (every handler of an event decodes for itself)", "%s; frames %s", first, showFrames(frames))
+			}
+		}
+	}
 }
 
 // ---------------------------------------------------------------- comparing decoded values with the model
